@@ -665,6 +665,11 @@ class Interp:
                 return r
             if op == 'shl' and isinstance(b, int):
                 return as_poly(a) * (1 << b)
+            hook = s.opts.get('symbolic_binop')
+            if hook:
+                r = hook(s, op, a, b, ty)
+                if r is not None:
+                    return r
             raise Incomplete('symbolic integer %s: %s, %s' % (op, a, b))
         # lane masking of field values: and with all-ones / zero
         if op == 'and':
@@ -744,20 +749,37 @@ class Interp:
             s.stack.pop()
             s.depth -= 1
 
-    def _run(s, fn, env):
-        lab = fn.order[0]
-        prev = None
+    def run_fragment(s, name, env, start, prev=None, skip_phis=False, stop_at=None):
+        """interpret part of function `name`: from block `start` (entered from `prev`; its phi nodes are taken from env when
+        skip_phis) until control is about to enter `stop_at` again -> ('stop', predecessor label, env) or until it
+        returns -> ('ret', value, env).  Used for inductive loop arguments (one abstract iteration from a havocked state)."""
+        fn = s.mod.fn(name)
+        s.stack.append((name, None))
+        s.depth += 1
+        try:
+            return s._run(fn, env, start=start, prev=prev, skip_phis=skip_phis, stop_at=stop_at)
+        finally:
+            s.stack.pop()
+            s.depth -= 1
+
+    def _run(s, fn, env, start=None, prev=None, skip_phis=False, stop_at=None):
+        lab = start if start is not None else fn.order[0]
         blocks = fn.blocks
         name = fn.name
         stack = s.stack
         top = len(stack) - 1
+        first = True
         while True:
             nxt = None
             blk = blocks[lab]
+            if stop_at is not None and lab == stop_at and not first:
+                return ('stop', prev, env)
             if s.par is not None and lab.startswith('omp.inner.for.body') and name.startswith('.omp_outlined.'):
                 s.iter_no += 1
                 s.cur_iter = s.iter_no
-            if blk and blk[0].op == 'phi':
+            if first and skip_phis:
+                pass
+            elif blk and blk[0].op == 'phi':
                 # phi nodes of a block are evaluated simultaneously on entry
                 vals = []
                 for ins in blk:
@@ -827,9 +849,10 @@ class Interp:
                 elif op in ir.CASTS:
                     env[ins.dst] = s.cast(op, s.val(env, ins.a[0], ins.x), ins.x, ins.ty)
                 elif op == 'ret':
-                    if not ins.a:
-                        return None
-                    return s.val(env, ins.a[0], ins.ty)
+                    rv = None if not ins.a else s.val(env, ins.a[0], ins.ty)
+                    if start is not None or stop_at is not None:
+                        return ('ret', rv, env)
+                    return rv
                 elif op == 'phi':
                     pass
                 elif op == 'select':
@@ -901,6 +924,7 @@ class Interp:
             else:
                 raise Incomplete('block without terminator')
             prev, lab = lab, nxt
+            first = False
 
     # ---------------------------------------------------------------- calls
     def do_call(s, env, ins):
